@@ -117,6 +117,12 @@ def check(ctx):
             evs = None
         where = f"{fs.file}:{evs[0].line}" if evs else fs.where()
         y = check_quadrature(ctx, "C08-b", evs[0], its, {"pressure"}, qs + ":cumulative_trapezoid" + vtag, where) if evs else None
+        if evs:
+            # the transform receives the caller's arrays: stacked tables (one isotherm per row) are integrated along the
+            # pressure axis, which is the last one (the library default) - axis=0 integrates across the tables
+            ax = evs[0].data["args"].get("axis")
+            ax_ok = ax is None or (isinstance(ax, Num) and nf.as_int(ax.nf) == -1)
+            ctx.check(ax_ok, "C08-b", qs + ":integration axis" + vtag, where, "the cumulative integral runs along the last axis (the pressure axis of the caller's arrays), as without an axis argument", signature="axis", axis=str(ax)[:40])
         k = _factor(its, ps.value, evs[0]) if evs else None
         if evs is None:
             pass
